@@ -9,23 +9,23 @@ Model names travel as one token each: the decimal code points joined by `.` (`10
 namespace Drv
 open SF.Match
 
-def decodeName (t : String) : Option String :=
+def decodeNameTok (t : String) : Option String :=
   if t = "-" then some ""
   else ((t.splitOn ".").mapM (fun (p : String) => p.toNat?.map Char.ofNat)).map String.ofList
 
-def encodeName (s : String) : String :=
+def encodeNameTok (s : String) : String :=
   if s.isEmpty then "-" else ".".intercalate (s.toList.map (fun c => toString c.toNat))
 
-def name : Rd String := do
+def nameTok : Rd String := do
   let t ← tok
-  match decodeName t with
+  match decodeNameTok t with
   | some s => pure s
   | none => throw s!"bad-name:{t}"
 
-def showNames (l : List String) : String :=
-  " ".intercalate (toString l.length :: l.map encodeName)
+def showNameToks (l : List String) : String :=
+  " ".intercalate (toString l.length :: l.map encodeNameTok)
 
-def liftM {α : Type} (e : Except MErr α) : Rd α :=
+def liftMErr {α : Type} (e : Except MErr α) : Rd α :=
   match e with
   | .ok a => pure a
   | .error m => throw m.toString
@@ -33,59 +33,59 @@ def liftM {α : Type} (e : Except MErr α) : Rd α :=
 /-- `ordermatch nA {name}* nR {name}*`: `sort_to_match` on rows tagged with their position
     → `k {source position of new row i}* k {new name}*`, or `err sortFailed|indexError` -/
 def opOrderMatch : Rd String := do
-  let a ← listOf name
-  let req ← listOf name
+  let a ← listOf nameTok
+  let req ← listOf nameTok
   let tags := List.range a.length
   let c : Conv Nat Nat := { names := a, apertures := none, filtwav := 0, flux := tags, error := tags }
-  let c' ← liftM (sortToMatch c req)
+  let c' ← liftMErr (sortToMatch c req)
   if c'.flux ≠ c'.error then throw "flux-error-misaligned"
-  pure s!"{showNats c'.flux} {showNames c'.names}"
+  pure s!"{showNats c'.flux} {showNameToks c'.names}"
 
-/-- `convolve v nAp nL {name}* nT {name}*`: `v` = 1 per-file (`{name}*` of the SED files in
+/-- `convnames v nAp nL {name}* nT {name}*`: `v` = 1 per-file (`{name}*` of the SED files in
     directory-listing order), 2 cube (cube order); SED `m`, aperture `ia` is the tag `100 m + ia`,
     its uncertainty `100 m + ia + 50`; the filter functionals are the identity.
     → `k {name}* {nAp flux tags, nAp error tags}*` or `err …` -/
-def opConvolve : Rd String := do
+def opConvNames : Rd String := do
   let v ← nat
   let nAp ← nat
-  let src ← listOf name
-  let table ← listOf name
+  let src ← listOf nameTok
+  let table ← listOf nameTok
   let aps : Option (List Nat) := some (List.range nAp)
   let sedOf (m : Nat) : Nat → Ap Nat := fun ia => ⟨100 * m + ia, 100 * m + ia + 50⟩
-  let r ← liftM (
+  let r ← liftMErr (
     if v = 1 then
       convolveV1 (K := Nat) id id 0 (src.zipIdx.map (fun (n, m) => ⟨n, aps, sedOf m⟩)) table
     else
       convolveV2 (K := Nat) id id 0 ⟨src, aps, (List.range src.length).map sedOf⟩ table)
   let rows := List.zipWith (fun f e => s!"{showNats f} {showNats e}") r.flux r.error
-  pure (" ".intercalate (showNames r.names :: rows))
+  pure (" ".intercalate (showNameToks r.names :: rows))
 
-def readDict : Rd (List (String × Rat)) :=
-  listOf (do let n ← name; let v ← rat; pure (n, v))
+def readNameDict : Rd (List (String × Rat)) :=
+  listOf (do let n ← nameTok; let v ← rat; pure (n, v))
 
 /-- `filtertable prep nT {name}* nM {name}* nAdd {nE {name value}*}*`: table rows are tagged with their
     position in the list given; `prep` = 1 applies the strip + sort-by-name step first
     → `k {table position of output row i}* k {name of output row i}* {nAdd {value}*}*` or `err …` -/
 def opFilterTable : Rd String := do
   let prep ← nat
-  let tnames ← listOf name
-  let mn ← listOf name
-  let addl ← listOf readDict
+  let tnames ← listOf nameTok
+  let mn ← listOf nameTok
+  let addl ← listOf readNameDict
   let rows : List (String × Nat) := tnames.zipIdx
   let table := if prep = 1 then prepTable rows else rows
-  let r ← liftM (filterTableAdd table mn addl)
+  let r ← liftMErr (filterTableAdd table mn addl)
   let ex := r.map (fun x => showRats x.2.2)
-  pure (" ".intercalate (showNats (r.map (·.2.1)) :: showNames (r.map (·.1)) :: ex))
+  pure (" ".intercalate (showNats (r.map (·.2.1)) :: showNameToks (r.map (·.1)) :: ex))
 
 /-- `ranges n {x}*` → `1 min best max`, or `0` for an empty selection -/
-def opRanges : Rd String := do
+def opParRanges : Rd String := do
   let xs ← listOf rat
   match paramRanges xs with
   | none => pure "0"
   | some (lo, best, hi) => pure s!"1 {showRat lo} {showRat best} {showRat hi}"
 
-/-- `counts n {flag}* nfits` → `n_data n_fits` -/
-def opCounts : Rd String := do
+/-- `parcounts n {flag}* nfits` → `n_data n_fits` -/
+def opParCounts : Rd String := do
   let flags ← listOf nat
   let k ← nat
   let c := counts flags (List.range k)
@@ -94,10 +94,10 @@ def opCounts : Rd String := do
 def handleC07 (op : String) : Option (Rd String) :=
   match op with
   | "ordermatch" => some opOrderMatch
-  | "convolve" => some opConvolve
+  | "convnames" => some opConvNames
   | "filtertable" => some opFilterTable
-  | "ranges" => some opRanges
-  | "counts" => some opCounts
+  | "ranges" => some opParRanges
+  | "parcounts" => some opParCounts
   | _ => none
 
 end Drv
